@@ -52,7 +52,7 @@ CLAIMED = {
               "dictionaries hold only plain containers, incompatible config rejected; split_data_and_meta/combine_data_and_meta are inverse "
               "on nested dictionaries."),
         design_ref='DESIGN.md §5 C17',
-        note=TRUST + "Data vectors are concrete arrays (values irrelevant to the field map). MPS/PEPS/environment containers, numpy save/load and HDF5 are NOT covered (external I/O), nor the linear-map claim for to_dict(meta=...).",
+        note=TRUST + "Data vectors are concrete arrays (values irrelevant to the field map). Containers: MpsMpoOBC / MpoPBC, Lattice / Peps / Peps2Layers over every geometry class and DoublePepsTensor round-trip through to_dict -> yastn.from_dict (one tensor per container with symbolic structure); one genuine defect found and fixed (TriangularLattice lost dims/boundary/full_patch). Environment containers, numpy save/load and HDF5 files are NOT covered (external I/O).",
         technique='AST-to-SMT symbolic execution of the real (de)serialisation code with symbolic structure fields; z3',
     ),
     'C18': dict(
@@ -179,13 +179,16 @@ CLAIMED = {
               "given order and carries sign_canonical_order. sign_canonical_order / swap_charges obligations shared with C05. generate_mpo for a single "
               "product term on ghost operators with symbolic charges (all positions incl. repeated / unordered sites, f_map permutations, identity given "
               "as tensor or list): site n holds the product in the order written, dressed by the parity string of the operators later in fermionic "
-              "order on the ket side, virtual legs carry the accumulated charges and chain consistently, amplitude*ordering sign enters once. VALUES: "
+              "order on the ket side, virtual legs carry the accumulated charges and chain consistently, amplitude*ordering sign enters once. "
+              "generate_mpo for SEVERAL terms: real spinless-fermion operators, enumerated term lists x all f_map permutations (N = 3; sampled N = 4), "
+              "symbolic amplitudes, svd_with_truncation through its contract (exact factorisation): the dense matrix of the MPO equals the sum of "
+              "amplitude x Jordan-Wigner products as a polynomial identity (coefficients to 1e-12: the code divides a float norm out and back in). VALUES: "
               "measure_1site / measure_2site (all pairs, both orders, same site) / measure_nsite (permuted and repeated sites) and charged operators "
               "between different sectors equal <bra|O..|ket> with Jordan-Wigner matrices built from numpy.kron, for small chains with symbolic data "
               "(spin-1/2 dense/Z2, spinless fermions Z2/U1). BOUNDED (not counted as proved): on-site algebra and to_dict of every predefined "
               "operator class in every symmetry."),
         design_ref='DESIGN.md §5 C07',
-        note="Trusted: pyvc, z3. NOT decided: generate_mpo for sums of terms (block + SVD compression of the term index), Generator/latex2term parsing, rdm, sampling; the value part is bounded in structure; the operator-algebra check is an exhaustive floating-point evaluation, labelled bounded.",
+        note="Trusted: pyvc, z3. NOT decided: that the real SVD compression (tol 1e-13) inside generate_mpo is lossless, Generator/latex2term parsing, rdm, sampling; the value parts are bounded in structure; the operator-algebra check is an exhaustive floating-point evaluation, labelled bounded. Two genuine defects found and fixed (position N accepted; IndexError for a vanishing on-site product).",
         technique='symbolic execution of the real measurement drivers against ghost-environment (operator placement) contracts; finite exhaustive check of the bond-pattern parser',
     ),
     'C08': dict(
@@ -255,7 +258,8 @@ CLAIMED = {
               "einsum, _meta_ncon, _resolve_bad_swaps and _execute_commands run on network ghosts (which edge sits on which leg) with a symbolic "
               "parity per edge; tensordot/trace/transpose/swap_gate enter through their contracts, so the run accumulates a GF(2) quadratic form, "
               "proved equal for ALL parities to the product of the declared swaps for every accepted contraction order of 22 network shapes (up "
-              "to 4 tensors / 7 edges, bundles, traces, outer products, 1-2 declared swaps, einsum front end, conjugated operands); refusals must "
+              "to 4 tensors / 7 edges, bundles, traces, outer products, 1-2 declared swaps, einsum front end, conjugated operands; one fermionic "
+              "component, and product symmetries with fermionic = (True, True), (True, False), (False, False, True)); refusals must "
               "be YastnError; counter-models replay on real Z2-fermionic tensors. Found and fixed: wrong sign / internal assertion for swaps the "
               "jump moves cannot resolve. BOUNDED (not counted as proved): dense CAR and product consistency of fkron for every fermionic "
               "operator family x symmetry on 2-3 sites, all site assignments and application orders."),
